@@ -248,12 +248,30 @@ def _binary_encode_double(col: ResultColumn, val: Any) -> bytes:
     return struct.pack("<d", val)
 
 
+def _timedelta_parts(val: timedelta) -> Tuple[bool, int, int, int, int, int]:
+    """Sign, days, hours, minutes, seconds and microseconds of the magnitude"""
+    total = (val.days * 86400 + val.seconds) * 1000000 + val.microseconds
+    is_negative = total < 0
+    seconds, microseconds = divmod(abs(total), 1000000)
+    minutes, seconds = divmod(seconds, 60)
+    hours, minutes = divmod(minutes, 60)
+    days, hours = divmod(hours, 24)
+    return is_negative, days, hours, minutes, seconds, microseconds
+
+
+def _text_encode_timedelta(col: ResultColumn, val: Any) -> bytes:
+    if not isinstance(val, timedelta):
+        return _text_encode_str(col, val)
+    is_negative, days, hours, minutes, seconds, microseconds = _timedelta_parts(val)
+    sign = "-" if is_negative else ""
+    text = f"{sign}{days * 24 + hours:02d}:{minutes:02d}:{seconds:02d}"
+    if microseconds:
+        text += f".{microseconds:06d}"
+    return _text_encode_str(col, text)
+
+
 def _binary_encode_timedelta(col: ResultColumn, val: Any) -> bytes:
-    days = abs(val.days)
-    hours, remainder = divmod(abs(val.seconds), 3600)
-    minutes, seconds = divmod(remainder, 60)
-    microseconds = val.microseconds
-    is_negative = val.total_seconds() < 0
+    is_negative, days, hours, minutes, seconds, microseconds = _timedelta_parts(val)
 
     if microseconds == 0:
         if days == hours == minutes == seconds == 0:
@@ -330,7 +348,7 @@ _TEXT_ENCODERS: Dict[ColumnType, Encoder] = {
     ColumnType.LONGLONG: _text_encode_str,
     ColumnType.INT24: _text_encode_str,
     ColumnType.DATE: _text_encode_str,
-    ColumnType.TIME: _text_encode_str,
+    ColumnType.TIME: _text_encode_timedelta,
     ColumnType.DATETIME: _text_encode_str,
     ColumnType.YEAR: _text_encode_str,
     ColumnType.NEWDATE: _text_encode_str,
